@@ -305,7 +305,9 @@ class SessionGenerator:
                 generated session IDs.
 
         """
-        self._base_value = int(time.time()).to_bytes(4, byteorder="big").hex()
+        # the low 32 bits (the value is only told apart from other start times)
+        self._base_value = (int(time.time()) & 0xffffffff).to_bytes(
+            4, byteorder="big").hex()
         self._busy_lock = threading.Lock()
         self._sequence = random.getrandbits(64)
         self.diameter_identity = node_name
